@@ -24,15 +24,16 @@ ASSUMPTIONS = [
 
 
 def plan(tier):
-    base = {"case_time_limit": 600,
+    base = {"case_time_limit": 180,
             "required_classes": ["qn-one", "qn-two", "sector:extreme", "op:add", "op:compress-truncating", "op:compress-limit-1",
                                  "op:apply-charged", "op:conj_trans-apply", "op:canonicalise-stop", "op:dmrg-1site", "op:dmrg-2site",
-                                 "op:evolve", "op:evolve-imag", "op:mpdm", "operator-labels"],
-            "required_counters": {"label_checks": 2000, "sector_checks": 1500}}
+                                 "op:evolve", "op:evolve-imag", "op:mpdm", "operator-labels", "tree", "op:dmrg-tree",
+                                 "tree-scheme:tdvp_ps2", "tree-scheme:tdvp_vmf"],
+            "required_counters": {"label_checks": 2000, "sector_checks": 1500, "tree_sector_checks": 100}}
     if tier == "quick":
         base.update({"ncases": 240, "min_nontrivial": 50})
     else:
-        base.update({"ncases": 4000, "min_nontrivial": 1000, "required_counters": {"label_checks": 30000, "sector_checks": 20000}})
+        base.update({"ncases": 4000, "min_nontrivial": 1000, "required_counters": {"label_checks": 30000, "sector_checks": 20000, "tree_sector_checks": 2000}})
     return base
 
 
@@ -121,12 +122,8 @@ def charged_operator(ctx, gm, model, w, charge):
 
 def run_case(ctx):
     if ctx.idx % 6 == 5:
-        try:
-            from rv.props import c06_tree
-        except ImportError:
-            c06_tree = None
-        if c06_tree is not None:
-            return c06_tree.run_tree_case(ctx)
+        from rv.props import c06_tree
+        return c06_tree.run_tree_case(ctx)
     from renormalizer.mps import Mpo, MpDm, Mps
     from renormalizer.mps.gs import optimize_mps
     from renormalizer.utils import CompressConfig, CompressCriteria, OptimizeConfig
